@@ -18,24 +18,45 @@ LMAX = (1 << 63) - 1
 LMIN = -(1 << 63)
 U53 = 1 << 53
 
-# ulps (units of 2^-53 relative) allowed per operation -- the property's "a few units in the last place"
+# ulps (units of 2^-53 relative) allowed per operation -- the property's "a few units in the last place".
+# PROVED marks the constants that are the ones of a Coq theorem of Properties_C12.v (the predicate uses exactly the
+# proved bound); the others are empirical allowances for operations without an error theorem.
 K = {"set_d": 0, "set_2dl": 0, "neg": 0, "abs": 0, "neg_eq": 0, "abs_eq": 0,
      "mul_2exp": 0, "div_2exp": 0, "mul_eq_2exp": 0, "div_eq_2exp": 0,
      "mul": 1, "mul_eq": 1, "div": 1, "div_eq": 1, "inv": 1, "inv_eq": 1, "sqr": 1, "sqr_eq": 1,
-     "sqrt": 2, "sqrt_eq": 2, "mul_d": 1, "mul_eq_d": 1, "div_d": 1, "div_eq_d": 1,
+     "sqrt": 1, "sqrt_eq": 1, "mul_d": 1, "mul_eq_d": 1, "div_d": 1, "div_eq_d": 1,
      "add": 2, "add_eq": 2, "sub": 2, "sub_eq": 2,
      # complex: error measured in modulus
-     "cadd": 3, "csub": 3, "cmul": 4, "cmul_eq": 4, "csqr": 4, "csqr_eq": 4, "cmul_e": 2, "cdiv_e": 2,
+     "cadd": 3, "csub": 3, "cmul_e": 2, "cdiv_e": 2,
      "cmul_d": 2, "cdiv_d": 2, "cinv": 8, "cinv_eq": 8, "cdiv": 12, "cmod": 4, "csmod": 4, "cset_d": 0}
+# complex operations with a theorem in squared modulus: |res - exact|^2 <= K2 * 2^-106 * |exact|^2
+K2 = {"cmul": 19, "cmul_eq": 19, "csqr": 11, "csqr_eq": 11}
+PROVED = {"mul": "C12_mul_rel", "mul_eq": "C12_mul_rel", "sqr": "C12_sqr_rel", "sqr_eq": "C12_sqr_rel", "div": "C12_div_rel",
+          "div_eq": "C12_div_rel", "inv": "C12_inv_rel", "inv_eq": "C12_inv_rel", "sqrt": "C12_sqrt_rel", "sqrt_eq": "C12_sqrt_rel",
+          "add": "C12_add_rel (1 ulp when |e1-e2| <= 53)", "add_eq": "C12_add_eq_rel", "sub": "C12_sub_rel", "sub_eq": "C12_sub_rel",
+          "set_d": "C12_conv_double", "cmod": "C12_cmod_rel", "csmod": "C12_csmod_rel", "cmul": "C12_cmul_rel (k^2 = 19)",
+          "cmul_eq": "C12_cmul_rel (k^2 = 19)", "csqr": "C12_csqr_rel (k^2 = 11)", "csqr_eq": "C12_csqr_rel (k^2 = 11)",
+          "pow_si": "C12_pow_si_ulps (k = i + 1, 2|i| + 1 for i < 0)", "pow_eq_si": "C12_pow_si_ulps",
+          "get_d": "C12_get_d_partial (correctly rounded)", "cmp": "C12_cmp_correct", "lt": "C12_order_correct", "le": "C12_order_correct",
+          "gt": "C12_order_correct", "ge": "C12_order_correct", "mul_2exp": "C12_scale_2exp_partial", "div_2exp": "C12_scale_2exp_partial"}
 
 
-def k_pow(i): return 3 * abs(i) + 3          # rdpe_pow_si: |i| products, errors doubled by squarings
-def k_cpow(i): return 10 * abs(i) + 10       # cdpe_pow_si
+def k_pow(i): return (i if i >= 0 else 2 * -i) + 1     # C12_pow_si_ulps: (1+u)^k - 1 <= (k+1) u, k = i or 2|i|
+def k_cpow(i): return 10 * abs(i) + 10       # cdpe_pow_si (no theorem)
+
+
+def k_addsub(a):
+    """C12_add_rel / C12_sub_rel: one ulp when both operands are non-zero and |e1 - e2| <= 53 (or an operand is zero:
+    exact), two ulps in the shortcut branch"""
+    z1 = (int(a[0], 16) & ((1 << 63) - 1)) == 0; z2 = (int(a[2], 16) & ((1 << 63) - 1)) == 0
+    if z1 or z2: return 0
+    return 1 if abs(int(a[1]) - int(a[3])) <= 53 else 2
 
 
 UNARY = ["neg", "abs", "inv", "sqr", "sqrt", "neg_eq", "abs_eq", "inv_eq", "sqr_eq", "sqrt_eq"]
 BINARY = ["mul", "div", "add", "sub", "mul_eq", "div_eq", "add_eq", "sub_eq"]
 RELOPS = ["cmp", "eq", "ne", "lt", "le", "gt", "ge"]
+POW_OPS = ["pow_si", "pow_eq_si", "cpow_si", "cpow_eq_si"]
 WITH_D = ["mul_d", "div_d", "mul_eq_d", "div_eq_d"]
 WITH_UL = ["mul_2exp", "div_2exp", "mul_eq_2exp", "div_eq_2exp"]
 CUN = ["cmod", "csmod", "cinv", "cinv_eq", "csqr", "csqr_eq"]
@@ -179,12 +200,12 @@ def sqrt_ok(res, v, k):
     return lo <= a <= hi
 
 
-def crel_ok(r1, r2, e1, e2, k):
-    """|(r1,r2) - (e1,e2)|^2 <= (k 2^-53)^2 |(e1,e2)|^2"""
+def crel_ok(r1, r2, e1, e2, k, k2=None):
+    """|(r1,r2) - (e1,e2)|^2 <= (k 2^-53)^2 |(e1,e2)|^2   (k2 = k^2 when given)"""
     d1 = x_add(r1, e1, -1); d2 = x_add(r2, e2, -1)
     lhs = x_add(x_mul(d1, d1), x_mul(d2, d2))
     rhs = x_add(x_mul(e1, e1), x_mul(e2, e2))
-    rhs = (rhs[0] * k * k, rhs[1], rhs[2] - 106)
+    rhs = (rhs[0] * (k2 if k2 is not None else k * k), rhs[1], rhs[2] - 106)
     return x_cmp(lhs, rhs) <= 0
 
 
@@ -309,7 +330,7 @@ def evaluate(op, a, out):
                 ex = x_div(x, y)
             elif base == "add": ex = x_add(x, y)
             else: ex = x_add(x, y, -1)
-            return check_real(op, om, oe, ex, K[op])
+            return check_real(op, om, oe, ex, k_addsub(a) if base in ("add", "sub") else K[op])
         if op in WITH_D:
             x = rval(int(a[0], 16), int(a[1])); d = dec(int(a[2], 16))
             if x is None or d is None: return ("skip", "non-finite")
@@ -341,6 +362,11 @@ def evaluate(op, a, out):
             if x is None: return ("skip", "non-finite")
             if x[0] == 0 and i <= 0: return ("skip", "0^nonpositive")
             om, oe = int(out[0], 16), int(out[1])
+            if abs(i) > 4096:
+                # huge exponents (LONG_MIN): only |x| = 1 has a power inside the range of long; otherwise saturation
+                if abs(x[0]) == 1 << (abs(x[0]).bit_length() - 1) and x_exp(x) == 1:
+                    return check_real(op, om, oe, (1 if (x[0] > 0 or i % 2 == 0) else -1, 1, 0), 0)
+                return ("skip", "power with |i| > 4096: accuracy not evaluated")
             p = (x[0] ** abs(i), 1, x[2] * abs(i))
             if i < 0: p = x_div((1, 1, 0), p)
             return check_real(op, om, oe, p, k_pow(i))
@@ -408,7 +434,7 @@ def evaluate_complex(op, a, out):
             if z[0][0] == 0 and z[1][0] == 0: return ("skip", "division by zero")
             exact = cinv(z)
         else: exact = cmul(z, z)
-        k = K[op]
+        k = K.get(op)
     elif op in CBIN:
         w = cval(a[4:8]); exps += [int(a[5]), int(a[7])]
         if w is None: return ("skip", "non-finite")
@@ -419,7 +445,7 @@ def evaluate_complex(op, a, out):
         else:
             if w[0][0] == 0 and w[1][0] == 0: return ("skip", "division by zero")
             exact = cmul(z, cinv(w))
-        k = K[op]
+        k = K.get(op)
     elif op in ("cmul_e", "cdiv_e"):
         e = rval(int(a[4], 16), int(a[5])); exps.append(int(a[5]))
         if e is None: return ("skip", "non-finite")
@@ -443,6 +469,7 @@ def evaluate_complex(op, a, out):
         exact = cmul(z, w); k = K[op]
     elif op == "cpow_si":
         i = int(a[4])
+        if abs(i) > 4096: return ("skip", "power with |i| > 4096: accuracy not evaluated")
         if z[0][0] == 0 and z[1][0] == 0 and i <= 0: return ("skip", "0^nonpositive")
         p = ((1, 1, 0), (0, 1, 0))
         for _ in range(abs(i)): p = cmul(p, z)          # dyadic (denominator 1) all along
@@ -463,6 +490,7 @@ def evaluate_complex(op, a, out):
     # accuracy only where no intermediate can leave the exponent range (saturation of composite
     # complex operations is not specified by the property)
     lim = 1 << 58
+    if op in K2 or op in ("cmod", "csmod"): lim = 1 << 60      # csmall of C12_cmul_rel, C12_csqr_rel, C12_cmod_rel
     if op == "cpow_si": lim = (1 << 58) // (abs(int(a[4])) + 1)
     if any(abs(e) > lim for e in exps): return ("skip", "complex op with extreme exponents: accuracy not evaluated")
     if real_out:
@@ -471,7 +499,7 @@ def evaluate_complex(op, a, out):
             return None if sqrt_ok(res, s, k) else ("rel", "in-range")
         return None if rel_ok(res, exact, k) else ("rel", "in-range")
     r1 = rval(int(out[0], 16), int(out[1])); r2 = rval(int(out[2], 16), int(out[3]))
-    return None if crel_ok(r1, r2, exact[0], exact[1], k) else ("rel", "in-range")
+    return None if crel_ok(r1, r2, exact[0], exact[1], k, K2.get(op)) else ("rel", "in-range")
 
 
 # ------------------------------------------------------------------ generators
@@ -745,6 +773,47 @@ def targeted_cases():
     for m in [H, T | NEG]:
         out.append("csqr %s" % fc(((m, 2), (0, 0)))); out.append("csqr %s" % fc(((0, 0), (m, 2))))
         out.append("csqr_eq %s" % fc(((m, 2), (0, 0))))
+    # ---- case splits of the round-4 proofs ----
+    # C12_add_rel / C12_sub_rel: cancellation to zero and to the last bit, delta = 1 (Sterbenz range), both orders
+    for op in ["add", "sub", "add_eq", "sub_eq"]:
+        for e in [0, 5, -1021, 1 << 40, LMAX - 1024, LMIN + 1074, LMIN + 1073, LMAX - 1023, LMAX, LMIN]:
+            for ma, mb in [(H, H), (A, A), (T, T), (A, B), (B, A), (H, B)]:
+                sb = NEG if op.startswith("add") else 0          # effective subtraction
+                out.append("%s %s %s" % (op, fr((ma, e)), fr((mb | sb, e))))
+                out.append("%s %s %s" % (op, fr((ma | NEG, e)), fr(((mb | sb) ^ NEG, e))))
+                if LMIN < e: out.append("%s %s %s" % (op, fr((H, e)), fr((A | sb, e - 1))))     # 0.5*2^e - (1-2^-53)*2^(e-1)
+                if LMIN < e: out.append("%s %s %s" % (op, fr((A | sb, e - 1)), fr((H, e))))
+    # C12_sqrt_rel: odd and even exponents at the ends of long and around zero
+    for op in ["sqrt", "sqrt_eq"]:
+        for e in [LMAX, LMAX - 1, LMAX - 2, LMIN, LMIN + 1, LMIN + 2, -3, -2, -1, 0, 1, 2, 3, (1 << 62) - 1, 1 << 62, -(1 << 62) - 1, -(1 << 62)]:
+            for m in [H, A, B, T]:
+                out.append("%s %s" % (op, fr((m, e))))
+        out.append("%s %s" % (op, fr((0, 0))))
+    # C12_pow_si_rel: exponents 0, +-1, +-2, 63, 64 (bit patterns of the loop), the limit of the range hypothesis, LONG_MIN
+    for op in ["pow_si", "pow_eq_si"]:
+        for i in [0, 1, -1, 2, -2, 3, -3, 7, 8, 63, 64, -64, 255, 256, -600, 600]:
+            lim = (1 << 60) // (abs(i) + 1)
+            for m, e in [(H, 1), (H, 2), (A, 0), (B, 1), (T | NEG, 2), (A | NEG, 5), (T, lim), (A, -lim), (B | NEG, lim - 1)]:
+                out.append("%s %s %d" % (op, fr((m, e)), i))
+        for m, e in [(H, 1), (H | NEG, 1), (H, 0), (H, 2), (H, 3), (T, 1), (A | NEG, -7)]:
+            out.append("%s %s %d" % (op, fr((m, e)), LMIN))
+            out.append("%s %s %d" % (op, fr((m, e)), LMIN + 1))
+            out.append("%s %s %d" % (op, fr((m, e)), LMAX))
+    for op in ["cpow_si", "cpow_eq_si"]:
+        out.append("%s %s %d" % (op, fc(((H, 1), (0, 0))), LMIN))
+        out.append("%s %s %d" % (op, fc(((T, 1), (A, 0))), LMIN))
+        for i in [0, 1, -1, 2, -2]:
+            out.append("%s %s %d" % (op, fc(((T, 1), (A | NEG, 0))), i))
+    # C12_cmul_rel / C12_csqr_rel / C12_cmod_rel: cancellation in the real part, zero components, the limit 2^60
+    for e in [0, 3, -1000, 1 << 60, -(1 << 60)]:
+        for (a, b, c, d) in [(H, H, H, H), (A, B, B, A), (T, A, A, T), (H, 0, 0, H), (0, T, T, 0), (A, A | NEG, A, A)]:
+            z = ((a, e if a & ~NEG else 0), (b, e if b & ~NEG else 0)); w = ((c, e if c & ~NEG else 0), (d, e if d & ~NEG else 0))
+            out.append("cmul %s %s" % (fc(z), fc(w))); out.append("cmul_eq %s %s" % (fc(z), fc(w)))
+            out.append("csqr %s" % fc(z)); out.append("csqr_eq %s" % fc(z)); out.append("cmod %s" % fc(z)); out.append("csmod %s" % fc(z))
+    # C12_get_d_partial: ties and borders of the subnormal range, C12_get_d_clamped
+    for e in [-1021, -1022, -1023, -1073, -1074, -1075, -2200, -2201, -4096, -4097, 1024, 1025, 4096, 4097]:
+        for m in [H, A, B, T, H | NEG]:
+            out.append("get_d %s" % fr((m, e)))
     return out
 
 
@@ -793,7 +862,11 @@ def run_batch(lines):
             lno = int(u[2].split(":")[1])
             ub = {"kind": u[1], "where": u[2], "fn": ub_function(lno), "lhs": int(u[3]), "rhs": int(u[4])}
             impl = plain[i]
+            if impl == "SKIP" and op in POW_OPS and args[-1] == str(LMIN):
+                impl = "NOT-RUN"      # x^LONG_MIN after the wrapped negation: the loop of the plain build would not terminate
         d = {"line": ln, "op": op, "impl": impl, "model": mo[i], "ub": ub, "v": None, "skip": None}
+        if impl == "HANG":
+            d["v"] = ("hang", "no-result-within-20s"); d["agree"] = False; res.append(d); continue
         if impl in ("SKIP", "ERR") or mo[i].startswith("ERR"):
             d["v"] = ("harness", "protocol-error"); res.append(d); continue
         ev = evaluate(op, args, impl.split())
@@ -819,6 +892,34 @@ def run_batch(lines):
     return res
 
 
+def split_class(op, a):
+    """which case split of the round-4 proofs a case exercises (input distribution, printed into the evidence)"""
+    try:
+        base = op.replace("_eq", "")
+        if base in ("add", "sub") and len(a) == 4:
+            z1 = sign_of(int(a[0], 16)) == 0; z2 = sign_of(int(a[2], 16)) == 0
+            if z1 or z2: return base + ":zero-operand"
+            d = abs(int(a[1]) - int(a[3]))
+            eff_sub = (sign_of(int(a[0], 16)) != sign_of(int(a[2], 16))) != (base == "sub")
+            if d == 0: return base + (":delta=0,cancelling" if eff_sub else ":delta=0,same-sign")
+            if d == 1: return base + ":delta=1"
+            if d <= 52: return base + ":delta=2..52"
+            if d == 53: return base + ":delta=53(last rounded)"
+            if d == 54: return base + ":delta=54(first shortcut)"
+            return base + ":delta>54(shortcut)"
+        if base == "sqrt":
+            e = int(a[1]); return "sqrt:%s%s" % ("odd" if e & 1 else "even", ",|e|>=2^62" if abs(e) >= (1 << 62) else "")
+        if op in POW_OPS:
+            i = int(a[-1])
+            return "%s:i=%s" % (op.replace("_eq", ""), "LONG_MIN" if i == LMIN else "0" if i == 0 else "+-1" if abs(i) == 1 else
+                                "|i|<=64" if abs(i) <= 64 else "|i|<=4096" if abs(i) <= 4096 else "huge")
+        if op == "get_d":
+            e = int(a[1]); return "get_d:" + ("e>1024" if e > 1024 else "normal" if e >= -1021 else "subnormal" if e >= -1074 else "below")
+    except (ValueError, IndexError):
+        pass
+    return None
+
+
 def summarise(res, st):
     """fold a batch into the statistics dict; return the list of (signature, what, replay) to report"""
     rep = []
@@ -827,6 +928,8 @@ def summarise(res, st):
         st["ops"][op] = st["ops"].get(op, 0) + 1
         st["evaluations"] += 1
         st["distinct"].add(d["line"])
+        sc = split_class(op, d["line"].split()[1:])
+        if sc: st["splits"][sc] = st["splits"].get(sc, 0) + 1
         if d["skip"]: st["skipped"][d["skip"]] = st["skipped"].get(d["skip"], 0) + 1
         if d["ub"] is not None:
             key = "%s:%s%s" % (d["ub"]["fn"], d["ub"]["kind"], ":benign" if d.get("ub_benign") else "")
@@ -878,7 +981,7 @@ def _worker(job):
 
 def new_stats():
     return {"ops": {}, "evaluations": 0, "distinct": set(), "skipped": {}, "ub_reports": {}, "agree": 0, "disagree": 0,
-            "disagree_matches_old_model": 0, "predicate_true": 0, "predicate_false": 0, "fail_classes": {}}
+            "disagree_matches_old_model": 0, "predicate_true": 0, "predicate_false": 0, "fail_classes": {}, "splits": {}}
 
 
 # Coq witnesses of the *_refuted theorems, replayed on the real code: (case, expected signature)
@@ -891,6 +994,7 @@ WITNESSES = [
     ("cmp 3fe0000000000000 9223372036854775807 3fe0000000000000 -9223372036854775808", "C12_cmp_refuted"),
     ("sqrt 3fe0000000000000 9223372036854775807", "C12_saturates_refuted: sqrt(RDPE_MAX)"),
     ("cdiv_eq 3fe0000000000000 2 0000000000000000 0 3fe0000000000000 3 0000000000000000 0", "C12_cdpe_div_eq_unfixed_refuted: 2/4 = 1"),
+    ("pow_si 3fe0000000000000 3 -9223372036854775808", "C12_pow_si_long_min_refuted: 4^LONG_MIN, negation wraps, loop does not end"),
 ]
 
 
@@ -983,11 +1087,14 @@ def run(ctx):
         "rule": "each case = one call of an rdpe_*/cdpe_* function on generated operands (deterministic grid over the code's "
                 "case splits + seeded random: mantissa patterns 0.5, 1-2^-53, adjacent, random, +-0; exponents from the special "
                 "set {LONG_MIN.., -2^62, -2^31-1, -1075, -54..54, 2^31, 2^62, ..LONG_MAX} and random at 4 scales; exponent "
-                "distance 0,1,52..55, sums at LONG_MAX/LONG_MIN); distinct = distinct input lines; every case runs through the "
+                "distance 0,1,52..55, sums at LONG_MAX/LONG_MIN; round 4: cancellation to zero / to the last bit, delta = 1, sqrt odd/even at the ends of long, "
+                "pow_si 0, +-1, .., 600, LONG_MIN, LONG_MAX, complex operands with zero components and exponents at +-2^60, get_d at the subnormal borders and "
+                "at the clamp -- see proof_case_split_histogram); distinct = distinct input lines; every case runs through the "
                 "sanitised implementation, the extracted model and the exact predicate",
         "samples": samples,
         "api_coverage": api,
         "op_histogram": st["ops"],
+        "proof_case_split_histogram": st["splits"],
         "predicate_true": st["predicate_true"], "predicate_false": st["predicate_false"],
         "failing_classes": st["fail_classes"],
         "predicate_not_evaluated": st["skipped"],
@@ -995,7 +1102,9 @@ def run(ctx):
         "model_agrees_bit_exact": st["agree"], "model_disagrees": st["disagree"],
         "model_disagrees_but_matches_prefix_model": st["disagree_matches_old_model"],
         "refutation_witnesses_replayed": witness_log,
-        "ulps_allowed": dict(K, pow_si="3|i|+3", cpow_si="10|i|+10"),
+        "ulps_allowed": dict(K, pow_si="i+1 (i>=0), 2|i|+1 (i<0)", cpow_si="10|i|+10", add="1 if |e1-e2|<=53 else 2 (0 with a zero operand)",
+                             sub="1 if |e1-e2|<=53 else 2 (0 with a zero operand)", **{k + "^2": v for k, v in K2.items()}),
+        "constants_proved_in_coq": PROVED,
         "trusted_base": [
             "Coq 8.16.1 kernel; Flocq 4 (IEEE754.BinarySingleNaN) as the semantics of binary64 +,-,*,/,sqrt,frexp,ldexp",
             "axioms: those printed by Print Assumptions (classical real numbers of the standard library)",
@@ -1010,5 +1119,5 @@ def run(ctx):
     if coqchk: cov["coqchk"] = coqchk
     assumptions = ["gcc wraps signed long overflow at -O1 in the plain build (used only to display the wrapped value of cases UBSan flags)",
                    "operands are finite; division by zero, sqrt of negatives, 0^-n are outside the property",
-                   "accuracy of composite complex operations is evaluated for |exponent| <= 2^58 only"]
+                   "accuracy of composite complex operations is evaluated for |exponent| <= 2^58 (2^60 for cmul, csqr, cmod, csmod: the range of their theorems) only"]
     return ctx.finish("proof", cov, assumptions)
